@@ -26,6 +26,8 @@ class Generator(CodeGenerator):
         return [
             {"type": "file", "path": out / "vtest_a.txt", "contents": "structs: " + ",".join(s.name for s in fcp.structs) + "\n"},
             {"type": "file", "path": out / "vtest_b.h", "contents": "// " + str(len(fcp.enums)) + " enums\n"},
+            # one level below the output directory, as the DBC plug-in does for a bus named "a/b"
+            {"type": "file", "path": out / "nested" / "vtest_c.txt", "contents": "nested\n"},
         ]
 
     def register_checks(self, verifier):
